@@ -15,6 +15,7 @@ sys.path.insert(0, os.path.join(ROOT, 'tools'))
 sys.path.insert(0, os.path.join(ROOT, 'contracts'))
 import registry  # noqa: E402
 
+DELETIONS = False
 SWAPS = {'<': ['<='], '<=': ['<'], '>': ['>='], '>=': ['>'], '==': ['!='], '!=': ['=='],
          '+': ['-'], '-': ['+'], '<<': ['>>'], '>>': ['<<'], '&': ['|'], '|': ['&'], '^': ['|'],
          '&&': ['||'], '||': ['&&'], '+=': ['-='], '-=': ['+='], '*': ['+'], '/': ['*'], '%': ['/']}
@@ -90,6 +91,21 @@ def mutants_of(unit):
                 out.append({'unit': unit, 'item': it['name'], 'file': it['file'], 'start': t.start, 'end': t.end, 'old': t.text, 'new': r,
                             'line': src.text.count('\n', 0, t.start) + 1,
                             'context': src.text[src.text.rfind('\n', 0, t.start) + 1: src.text.find('\n', t.end)].strip()[:110]})
+    if DELETIONS:
+        out = []
+        seen = set()
+        for it in items_of(unit):
+            src = extract.Source(it['file'])
+            lines = src.text.split('\n')
+            off = 0
+            for ln, text in enumerate(lines, 1):
+                if it['line_start'] <= ln <= it['line_end'] and re.match(r'^\s*(\*?self\.)?[\w\.\[\]\*]+\s*(\+|-|\||&|\^|<<|>>)?=\s*[^;=][^;]*;\s*(//.*)?$', text) and not text.strip().startswith('let '):
+                    key = (it['file'], ln)
+                    if key not in seen:
+                        seen.add(key)
+                        out.append({'unit': unit, 'item': it['name'], 'file': it['file'], 'start': off, 'end': off + len(text), 'old': text.strip()[:60], 'new': '',
+                                    'line': ln, 'context': 'statement deleted: ' + text.strip()[:90]})
+                off += len(text) + 1
     return out
 
 
@@ -120,6 +136,9 @@ def main():
     j = 6
     if args and args[0] == '-j':
         j = int(args[1]); args = args[2:]
+    if args and args[0] == '--deletions':
+        global DELETIONS
+        DELETIONS = True; args = args[1:]
     units = args or [u for u, info in registry.UNITS.items() if info['backend'] == 'verus']
     muts = []
     for u in units:
